@@ -9,7 +9,8 @@ import itertools
 from hypothesis import strategies as st
 
 from pbt.core import Outcome
-from pbt.props._loops import KINDS, LOGICS, RAISE_KINDS, UNKNOWN_KINDS, make_loop, permitted
+from pbt.props import _decoys
+from pbt.props._loops import KINDS, LOGICS, PAYLOADS, RAISE_KINDS, UNKNOWN_KINDS, make_loop, permitted
 
 TECHNIQUE = "exhaustive 6x7x7 verdict table through run() + Hypothesis-generated request histories against a reference gate table, token-binding and cache-consistency oracles"
 LEVEL_TEXT = ("Exploration: the full gate-logic x executor-verdict x assessor-verdict table is enumerated through the real loop with stub agents "
@@ -32,6 +33,8 @@ RULE += ' Unknown verdict words (empty, fragments and extensions of PERMIT / EXE
 RULE += ' The prompt pool contains near-duplicates that differ only in characters an encoder or normaliser might drop or fold (NFC/NFD, zero-width, NUL, NBSP, full-width, case, lone surrogates): each is a different request for the cache and the token hash; a surrogate prompt may be refused with UnicodeEncodeError.'
 RULE += ' Bookkeeping calls between requests (clear_cache, get_statistics).'
 RULE += ' `slow` cases: the loop is built with timeout_seconds = 5 ms and some agent calls take 20 ms of real time - whatever the loop does about a slow agent, each request is judged by the verdicts its own agents gave for it. Agents also raise exceptions that carry no message.'
+RULE += " Round 7: the stub agents' payload is, per case, their name (as before) or one of empty string / None / 0 / False / [] / {} / a structure / 5000 characters; the 6x7x7 table is enumerated again with empty, None, 0 and [] payloads."
+RULE += ' Round 7: a `decoy` (pbt/props/_decoys.py): a second object of the class, differently configured and put through a misleading script (same prompts / names / ids, opposite verdicts and limits), is built in the same process after the object under test.'
 EXHAUSTIVE_NOTE = {"quick": "6x7x7 verdict table x (4 prompts x cache on/off + 3 confidence corners) = 3234 cells, complete",
                    "thorough": "6x7x7 verdict table x (4 prompts x cache on/off + 3 confidence corners) = 3234 cells, complete"}
 
@@ -51,8 +54,13 @@ _req = st.one_of(st.tuples(_prompt, st.sampled_from(_ALLK), st.sampled_from(_ALL
 
 
 def strategy(tier):
+    return _decoys.with_decoy(_strategy(tier))
+
+
+def _strategy(tier):
     # "bulk": that many distinct permitted requests first - histories longer than the decision cache and the result log (1000 entries each)
     plain = st.fixed_dictionaries({"logic": st.sampled_from(LOGICS), "cache": st.booleans(), "bulk": st.sampled_from([0] * 40 + [1001, 1003]),
+                                   "payload": st.sampled_from(["named"] * 8 + sorted(PAYLOADS)),
                                    "reqs": st.lists(_req, min_size=1, max_size=10)})
     _verdict = st.sampled_from(["EXECUTE", "PERMIT", "BLOCK", "BLOCK", "FAILURE", "UNKNOWN"])
     slow_req = st.tuples(st.sampled_from(_POOL[:8]), _verdict, _verdict, st.just(0.9), st.just(0.9),
@@ -87,6 +95,8 @@ def enumerate_cases(tier):
                 yield {"logic": logic, "cache": False, "reqs": [["exception-type", rk if e == "RAISE" else e, rk if a == "RAISE" else a]]}
         for ec, ac in ((0.0, 0.0), (0.0, 1.0), (1.0, 0.0)):
             yield {"logic": logic, "cache": False, "reqs": [["confidence-corner", e, a, ec, ac]]}
+        for pl in ("empty", "none", "zero", "list"):
+            yield {"logic": logic, "cache": True, "payload": pl, "reqs": [["payload-corner", e, a], ["payload-corner", e, a]]}
 
 
 def judge(case):
@@ -95,6 +105,12 @@ def judge(case):
     # `slow`: the loop is built with a tiny timeout_seconds and some agent calls take longer than that (real time: 20 ms against 5 ms).
     # Whatever the loop does about a slow agent, each request is judged by the verdicts its own agents gave for it
     loop, ex, ass, _budget = make_loop(logic, breaker=False, cache=case["cache"], agent_timeout=0.005 if case.get("slow") else None)
+    ex.payload_mode = ass.payload_mode = case.get("payload", "named")
+    if case.get("payload", "named") != "named":
+        out.label("payload:%s" % case["payload"])
+    if case.get("decoy"):
+        _decoys.loop(case["decoy"], [r_[0] for r_ in case["reqs"] if not r_[0].startswith("@")])
+        out.label("decoy")
     stored = {}      # prompt -> snapshot of the reply the cache may serve
     hashes = {}      # prompt -> token hash
     last_pair = {}
